@@ -194,7 +194,10 @@ def rendezvous(ctx, n, k, state, then, ping, empties=False, producer="generator"
             marks["obj_closed"] += 1
 
     resp = wsgi.SendEventResponse(gen() if producer == "generator" else IterableObject(), ping_interval=ping)
-    it = iter(resp(drivers.to_environ(drivers.Req()), lambda s, h, e=None: None))
+    env = drivers.to_environ(drivers.Req())
+    if (n + k) % 2:
+        env["wsgi.multithread"] = False  # a single-threaded (pre-fork / event-driven) server: the guarantees are the same
+    it = iter(resp(env, lambda s, h, e=None: None))
     got, res = [], {}
 
     def consumer():
